@@ -19,8 +19,8 @@ func vhRich(variant int, optMask cfgFlag) (Stack, *nodeConfig) {
 	}
 	pre := vhArbitraryStack(4, 1, false, optMask, capMode, 1)
 	cfg := pre.cfg
-	inner := And().Push("i1", nil, "i2")
-	cexp := Or().Push("c1")
+	inner := And().Push("i1", nil, "i2", float32(2.5))
+	cexp := Or().Push("c1", 0.125, true)
 	c := Cond("kw", Ge, cexp)
 	st := *pre.s.stack
 	st[1] = vhWrapStack(inner, nondetChoice(2))
